@@ -3,6 +3,7 @@ package sim
 import (
 	"container/heap"
 	"fmt"
+	"os"
 	"runtime"
 	"sort"
 	"strings"
@@ -145,6 +146,11 @@ func (s *Sim) Epoch() time.Time { return s.epoch }
 func (s *Sim) Fail(prop, oracle, class, format string, args ...any) {
 	if s.Viol != nil {
 		return
+	}
+	if os.Getenv("VERIF_STACKDBG") != "" {
+		buf := make([]byte, 1<<20)
+		n := runtime.Stack(buf, true)
+		fmt.Fprintf(os.Stderr, "STACKDBG at %s/%s/%s\n%s\n", prop, oracle, class, buf[:n])
 	}
 	if a, ok := s.Alias[prop]; ok {
 		// this run uses the oracle of another property as part of its own
